@@ -114,7 +114,7 @@ V_CTL = VUnit("ctl", "ctl", ["eval::eval_stmts_with_scope_stack", "eval::eval_st
 
 VERUS_TRUST = [
     "Verus 0.2026.09.13 / Z3: soundness of the verifier and of vstd's specifications of Vec, Option, Result, String::clone, vec!, Iterator::next (prophetic iterator model)",
-    "extraction D1-D5 (printed per run under samples[].edits): the verified text is the text of /repo apart from the listed, counted edits",
+    "extraction D1-D7 (printed per run under samples[].edits): the verified text is the text of /repo apart from the listed, counted edits",
     "A-ext: every external callee is deterministic in (abstract world, arguments) - contracts are uninterpreted functions, so proofs hold for every such behaviour",
     "A-lock: lock_deref!/try_lock succeed (no lock-discipline claim in Engine V)",
 ]
